@@ -253,14 +253,16 @@ func init() {
 				mu.Unlock()
 				return
 			}
-			for _, mc := range []bool{false, true} {
+			// three fresh rules per pattern, so that each mode is also compiled right
+			// after the other one (state shared between rules would show)
+			for _, mc := range []bool{true, false, true} {
 				c03CheckPattern(c, pats[i], mc, cnt, alphabet)
 			}
 			if d := atomic.AddInt64(&done, 1); d%4001 == 1 {
 				c.Run.Sample(map[string]any{"pattern": pats[i], "rule": pats[i] + "$domain=example.org"})
 			}
 		})
-		c.Run.Set("patterns_enumerated", int64(len(pats)*2))
+		c.Run.Set("patterns_enumerated", int64(len(pats)*3))
 		c.Run.Set("patterns_checked", cnt.patterns.Load())
 		c.Run.Set("patterns_rejected_by_parser", cnt.rejected.Load())
 		c.Run.Set("patterns_not_representable", cnt.notRepr.Load())
